@@ -1,4 +1,5 @@
 """C09 ZBDD set-family operations: wiring"""
+import elevels
 import substrate
 import edm
 import etaut
@@ -88,4 +89,8 @@ def run(ctx):
     nd = eeval.check_mt_delegations(ctx, F)
     ctx.floor("E-WRAP.delegate", "forwarding methods of the MT function types", nd, 15)
     substrate.run(ctx, F, dm=False)
+    ctx.explain("E-LEVELS: Manager::levels() (forward, backward and mixed iteration) and Manager::level(no) of both managers pair "
+                "every level number with that level's unique table (interpreted on a four-level model).")
+    nlv = elevels.run(ctx, F)
+    ctx.floor("E-LEVELS", "interpreted iteration / access situations", nlv, 16)
     ctx.not_decided = "consistency after add_vars beyond the cache events and the rebuilt tautology chain"
